@@ -18,7 +18,7 @@ RULE = (
     "(remove_completed_machine_nodes / job_nodes) x optional filter "
     "composition x whether an IsCompletedObserver already exists x choice "
     "sequence (among available operations); updater attached before the first "
-    "dispatch; optionally a reset and a second episode. Oracle after every "
+    "dispatch; optionally 1-3 resets, the checks continuing in every following episode. Oracle after every "
     "dispatch with the independent model's scheduled / completed sets: "
     "completed ops subseteq removed op nodes subseteq scheduled ops; a machine "
     "(job) node is removed only if every operation eligible on it (of it) is "
@@ -48,6 +48,7 @@ def strategy(tier):
             "pre_observer": st.sampled_from([None, None, ["machines", "jobs"], ["operations"], ["jobs"]]),
             "history": gen.histories(max_len=44),
             "reset_at": st.one_of(st.none(), st.integers(0, 20)),
+            "extra_resets": st.integers(0, 2),
         }
     )
 
@@ -72,7 +73,7 @@ def check_case(case, ctx):
     history = case["history"]
     lag = early = False
     pos = 0
-    episodes = 2 if case["reset_at"] is not None else 1
+    episodes = (2 + case.get("extra_resets", 0)) if case["reset_at"] is not None else 1
     for ep in range(episodes):
         m = ref(inst)
         prev_removed = None
